@@ -74,6 +74,9 @@ class Constraints(object):
     done = set()
     for x, st in list(self.st.items()):
       if x not in done:
+        # A nucleotide cannot be complementary to itself
+        if x in self.wc[x]:
+          raise ValueError("{} is constrained to be complementary to itself".format( self.name[x] ) )
         # Constraint must match all equal ...
         for y in self.eq[x]:
           assert y not in done, (x, y)
